@@ -1069,12 +1069,26 @@ func (fl *File) Sync() error {
 	if ie, ok := f.injectedErr(ft); ok {
 		rec.Err, rec.Inject = ie.Error(), ie.Error()
 		f.record(rec)
+		// Linux semantics of a failed fsync: the error is reported once and the dirty pages are
+		// marked clean although they never reached the disk - a second fsync returns success
+		// and makes nothing durable. The writes stay visible (page cache) and are lost with the
+		// power; only data written after this point can become durable again.
+		if fl.node.kind == kFile && fl.node.dirty {
+			fl.node.lostAt = len(fl.node.data)
+			fl.node.lost = true
+		}
 		return perr("sync", fl.name, ie)
 	}
 	if fl.node.kind == kDir {
 		f.syncDir(fl.node)
 	} else if fl.node.kind == kFile {
-		fl.node.syncData()
+		if fl.node.lost {
+			// the pages written before the failed fsync are clean in the cache and not on disk
+			fl.node.dirty = false
+			fl.node.writes = nil
+		} else {
+			fl.node.syncData()
+		}
 	}
 	f.record(rec)
 	return nil
